@@ -33,11 +33,11 @@ MANIFEST = dict(
           "on a civil day, +1 per day, Zeller-style Gregorian weekday after 1582-10-15; get_doy = day-number difference to "
           "1 January + 1 in both calendars, 365/366 (355 in 1582) on 31 December, doy2date inverts get_doy, year() = "
           "calendar year + elapsed fraction (floor = year, strictly increasing); mean sidereal time in [0,1) and its rate "
-          "inside a UT day; |mean_sidereal_time - IAU 1982 (Meeus 12.4)| <= 4.3e-8 day modulo whole turns for EVERY rational JDE in "
+          "inside a UT day (the 0h branch reduced too, the 0h shortcut is an absolute 1e-10 day); get_doy raises ValueError for day < 1, >= 32, month outside 1..12 and past the month end in both branches; the year divisor follows the calendar in force (1500: 366); get_date total on JDE >= -0.5 (a valid civil date + fraction that rebuilds the JDE, any time of day); year() strictly increasing with floor = get_date year for ANY two rational JDEs in [-0.5, 5373484.5); the rate clause for any two instants in the same or consecutive UT days to 1e-8 day; the 1.2 s bound now for years -2000..2500; |mean_sidereal_time - IAU 1982 (Meeus 12.4)| <= 4.3e-8 day modulo whole turns for EVERY rational JDE in "
           "[0, 5.4e6] (difference polynomial + monomial bounds). On the real-number instantiation of the same template text, with "
           "C08's nutation/obliquity model: apparent - mean = dpsi*3600*cos(eps)/15/86400 exactly; |apparent - mean| <= 1.345 s for "
-          "|T| <= 40 centuries whatever obliquity is passed; < 1.2 s with the library's own true obliquity for years 0..2500 "
-          "(-20 <= T <= 5). NOT carried by a theorem: the 1.2 s bound between year 2500 and 5970 (holds on every sampled instant; "
+          "|T| <= 40 centuries whatever obliquity is passed; < 1.2 s with the library's own true obliquity for years -2000..2500 "
+          "(-40 <= T <= 5). NOT carried by a theorem: the 1.2 s bound between year 2500 and 5970 (holds on every sampled instant; "
           "an amplitude-sum bound cannot reach it) — beyond JDE 3.9e6 it fails on the real code (listed finding). The model is tied to /repo by "
           "running its binary64 and exact instantiations against the real code: sampled in quick, every civil date "
           "-4712..6000 (weekday, day of year both ways, year) in thorough."),
